@@ -223,8 +223,10 @@ Definition reset_rtg (g : geom) (st : sst) : sst :=
   else mkS (scan st) (bfull st) (rgctr st) (imcu st) (bufrow st) (nro st) (gH g - scan st) (cbuf st) (sfull st) (spare st).
 
 (* jdapistd.c _jpeg_skip_scanlines, branch !need_context_rows; returns the new state and the return value *)
+Definition jdim (x : Z) : Z := x mod 4294967296.     (* JDIMENSION arithmetic *)
+
 Definition skip_s (g : geom) (st : sst) (n : Z) : sst * Z :=
-  if gH g <=? scan st + n then (set_scan st (gH g), gH g - scan st)
+  if gH g <=? scan st + n then (set_scan st (gH g), jdim (gH g - scan st))
   else if n =? 0 then (st, 0)
   else
     let L := gL g in
@@ -261,6 +263,60 @@ Fixpoint run_s (g : geom) (st : sst) (ops : list op) : sst * list (Z * list Z * 
 
 (* what a full decode delivers at scanline y *)
 Definition ideal_s (y : Z) : prov := (y, -1).
+
+(* ------------------------------------------------------------------ *)
+(* hazards of the no-context scheduler: an abstract interpretation of a *)
+(* history over (scanline, pending iMCU row, rows_to_go exact).  The     *)
+(* theorems say: no hazard => the history behaves like a full decode;    *)
+(* each hazard class has a witness on which the model (and the code)     *)
+(* delivers wrong rows.                                                  *)
+(*   1 skip issued while an earlier skip left an iMCU row pending        *)
+(*     (buffer_full = FALSE, rowgroup_ctr > 0) and reaching its end      *)
+(*   2 skip of >= v rows starting inside a row group (separate upsampler)*)
+(*   3 merged 2v upsampling: skip reaching the end of the iMCU row while *)
+(*     the spare row is occupied (odd output_scanline)                   *)
+(*   4 rows_to_go left stale by a skip, read with max_lines beyond the   *)
+(*     bottom of an image whose height is not a multiple of v            *)
+(* ------------------------------------------------------------------ *)
+Record astate := mkA { a_s : Z; a_pend : bool; a_exact : bool }.
+
+Definition merged2v (g : geom) : bool := gmerged g && (gv g =? 2).
+
+Definition haz_step (g : geom) (a : astate) (o : op) : Z * astate :=
+  let H := gH g in let v := gv g in let L := gL g in let s := a_s a in
+  match o with
+  | Read n =>
+      if (n <=? 0) || (H <=? s) then (0, a)
+      else ((if negb (a_exact a) && (H <? s + n) && negb (H mod v =? 0) then 4 else 0),
+            mkA (Z.min H (s + n)) false (a_exact a))
+  | Skip n =>
+      if H <=? s + n then (0, mkA H false true)
+      else if n =? 0 then (0, a)
+      else
+        let r := s mod v in
+        let ll := (L - s mod L) mod L in
+        if n <? ll then
+          if merged2v g then (0, mkA (s + n) false (a_exact a))
+          else if (r =? 0) || (n <? v)
+               then (0, mkA (s + n) (a_pend a && (n mod v =? 0)) (a_exact a && (n <? v)))
+               else (2, a)
+        else if a_pend a then (1, a)
+        else if merged2v g && (r =? 1) then (3, a)
+        else
+          let la := n - ll in
+          let ltr := la mod L in
+          (0, mkA (s + n) (negb (merged2v g) && (0 <? ltr) && (ltr mod v =? 0))
+                  (if merged2v g then a_exact a && (ll + (la - ltr) =? 0) else true))
+  end.
+
+(* first hazard of a history (0 = none) *)
+Fixpoint first_hazard (g : geom) (a : astate) (ops : list op) : Z :=
+  match ops with
+  | [] => 0
+  | o :: t => let '(h, a1) := haz_step g a o in if h =? 0 then first_hazard g a1 t else h
+  end.
+
+Definition a_init : astate := mkA 0 false true.
 
 (* ------------------------------------------------------------------ *)
 (* (b2) context main controller (fancy h2v2 / h1v2 upsampling)        *)
@@ -433,7 +489,7 @@ Definition c_init (g : geom) : cst :=
 
 (* jdapistd.c _jpeg_skip_scanlines, branch need_context_rows *)
 Definition skip_c (g : geom) (st : cst) (n : Z) : cst * Z :=
-  if gH g <=? c_scan st + n then (c_set_scan st (gH g), gH g - c_scan st)
+  if gH g <=? c_scan st + n then (c_set_scan st (gH g), jdim (gH g - c_scan st))
   else if n =? 0 then (st, 0)
   else
     let L := gL g in
@@ -568,3 +624,11 @@ Definition derive_config (chain : list (Z * Z * Z * Z * Z)) (dct W H : Z) (comps
                       (rg_of tc) (dsh_of tc) (hrows_of tc)
                       (is_ctx_method (nth (Z.to_nat idx) methods UNoop)) (rg_of c0) (dsh_of c0)))
   end.
+
+(* hazard 5: jpeg_crop_scanline calls jinit_upsampler(no_alloc) when a component's new downsampled_width
+   drops below 2; with merged upsampling the object it re-initialises is a my_merged_upsampler *)
+Definition crop_reinit_hazard (dct W : Z) (comps : list (Z * Z)) (k : config) (w' : Z) : bool :=
+  k_merged k &&
+  existsb (fun cd => let '((h, _), d) := cd in
+             (comp_dsw w' h d (k_hmax k) (k_M k) <? 2) && (2 <=? jdiv_round_up (W * (h * d)) (k_hmax k * dct)))
+          (combine comps (k_dct k)).
